@@ -2,6 +2,7 @@ mod asm;
 mod dev;
 mod frag;
 mod frames;
+mod neigh;
 mod tcp;
 mod pbuf;
 mod ring;
@@ -21,6 +22,7 @@ fn main() {
         "ring-replay" => ring::replay(&args),
         "frag-replay" => frag::replay(&args),
         "frag-random" => frag::random(&args),
+        "neigh-random" => neigh::random(&args),
         "tcp-pair" => tcp::pair(&args),
         "tcp-peer-replay" => tcp::peer_replay(&args),
         "tcp-peer-random" => tcp::peer_random(&args),
